@@ -718,10 +718,12 @@ def r19_5(ctx, counts: dict[str, int], scope=None, min_writers: int = 6) -> Rule
         'process-wide cache: results then depend on what was evaluated before, possibly under '
         'another configuration (parser, XSD or Unicode version) or by another thread.')
     n = 0
+    scanned = 0
     shared_cache: dict[int, set[str]] = {}
     for f in sorted(model.all_functions(), key=lambda q: q.key):
         if scope is not None and not scope(f):
             continue
+        scanned += 1
         mod = f.module
         locals_ = set(f.params())
         for nd in walk_local(f.node):
@@ -852,6 +854,10 @@ def r19_5(ctx, counts: dict[str, int], scope=None, min_writers: int = 6) -> Rule
                              f'process-wide state: a cache of this kind makes results depend on '
                              f'earlier evaluations, other configurations or other threads'))
     counts['process_state_writers'] = n
+    counts['process_state_scanned_functions'] = scanned
+    res.instances.append(f'{scanned} function(s) in scope scanned for writes to module-level, '
+                         f'class-level and escaping-closure state; {n} writer(s)')
+    res.ok()
     if n < min_writers:
         raise AnalysisError(f'only {n} writers of process-wide state located (inventory shrank)')
     return res
